@@ -297,10 +297,12 @@ def oracle(run: Run, c, impl):
             fails.append(("legs:steps", f"start {c['t0']}, step {dt} s: consecutive run calls of {c['legs']} s advanced {i['per_leg']} steps, expected {want}"))
         total = sum(w for w in want if w != "ValueError")
         t0 = datetime.fromisoformat(c["t0"])
-        exp = [(t0 + timedelta(seconds=k * dt)).isoformat(timespec="microseconds") for k in range(total + 1)]
+        # the clock writes the epochs of the configured span (3 steps here) when it is built; beyond that, one epoch per step taken
+        n_rows = max(total, 3) + 1
+        exp = [(t0 + timedelta(seconds=k * dt)).isoformat(timespec="microseconds") for k in range(n_rows)]
         got = [e.replace("Z", "").replace(" ", "T") for e in i["epochs"]]
         if [g[:26] for g in got] != exp:
-            fails.append(("legs:epochs", f"start {c['t0']}, step {dt} s, legs {c['legs']}: the stored epochs are not start + k*step for k = 0..{total} ({len(got)} rows, last {got[-1] if got else None})"))
+            fails.append(("legs:epochs", f"start {c['t0']}, step {dt} s, legs {c['legs']}: the stored epochs are not start + k*step for k = 0..{n_rows - 1} ({len(got)} rows, last {got[-1] if got else None})"))
     elif op == "run":
         D, dt = c["D"], c["dt"]
         want = D // dt
